@@ -243,7 +243,7 @@ Definition op_cw_readfrom (args : list sx) : sx :=
           let '(d, n, ok) := run_writes (flat_map (fun c => chop32k (S (N.to_nat (lenN c / 32768))) c)
                                                    (filter (fun c => negb (match c with [] => true | _ => false end)) chunks))
                                         (dest_of budget mode) 0 in
-          SL [SB (d_acc d); sN n; sN n; sbool (ok && (srcerr =? 0)%Z)]
+          SL [SB (d_acc d); sN n; sN n; sbool (ok && negb (srcerr =? 1)%Z)]   (* 1: source error; 2: data together with EOF *)
       | None => bad_args
       end
   | _ => bad_args
